@@ -318,6 +318,18 @@ func iriSafe(text string) bool {
 	return urlOK(text)
 }
 
+// iriForbidden reports whether text holds a character that an IRIREF cannot
+// contain literally (N-Quads grammar: [^#x00-#x20<>"{}|^`\]): a constructor that
+// accepts such text has to write the character as a UCHAR escape.
+func iriForbidden(text string) bool {
+	for _, r := range text {
+		if r <= 0x20 || strings.ContainsRune("<>\"{}|^`\\", r) {
+			return true
+		}
+	}
+	return false
+}
+
 // splitKey marks the one ambiguity of gonum's grammar that is resolved against
 // the longest-match rule: an object blank node whose label contains "_:".
 func splitKey(c nqStmt) string {
@@ -381,12 +393,14 @@ func checkNQStmt(c nqStmt) *vk.Failure {
 			return vk.Failf("parts", "term %d %q: Parts() = (%q, %q, %v, %v) want (%q, %q, kind %d, nil)", i, term.Value, gt, gq, gk, err, wt, wq, t.Kind)
 		}
 		// constructors invert Parts
+		// The IRI text of a parsed term may hold characters that were written as
+		// UCHAR escapes because an IRI cannot contain them ("must be valid"): the
+		// constructor may reject such text, but a term it returns must be one.
 		var back rdf.Term
+		iri := ""
 		switch t.Kind {
 		case 1:
-			if !iriSafe(wt) {
-				continue
-			}
+			iri = wt
 			back, err = rdf.NewIRITerm(wt)
 		case 3:
 			back, err = rdf.NewBlankTerm(wt)
@@ -394,17 +408,27 @@ func checkNQStmt(c nqStmt) *vk.Failure {
 				return vk.Failf("new-blank-term", "NewBlankTerm(%q).Value = %q want %q", wt, back.Value, term.Value)
 			}
 		default:
-			if wq != "" && !strings.HasPrefix(wq, "@") && !iriSafe(wq) {
-				continue
+			if wq != "" && !strings.HasPrefix(wq, "@") {
+				iri = wq
 			}
 			back, err = rdf.NewLiteralTerm(wt, wq)
 		}
+		if iri != "" && !utf8.ValidString(iri) {
+			continue
+		}
 		if err != nil {
+			if iri != "" && !iriSafe(iri) {
+				continue
+			}
 			return vk.Failf("new-term-rejected", "New*Term(%q, %q) for the parts of the valid term %q: %v", wt, wq, term.Value, err)
 		}
 		bt, bq, bk, err := back.Parts()
 		if err != nil || bt != wt || bq != wq || bk != gk {
-			return vk.Failf("new-term-parts", "New*Term(%q, %q) = %q whose Parts() = (%q, %q, %v, %v)", wt, wq, back.Value, bt, bq, bk, err)
+			key := "new-term-parts"
+			if iri != "" && iriForbidden(iri) {
+				key = "new-term-forbidden-char-not-escaped"
+			}
+			return vk.Failf(key, "New*Term(%q, %q) = %q whose Parts() = (%q, %q, %v, %v)", wt, wq, back.Value, bt, bq, bk, err)
 		}
 	}
 	return nil
@@ -532,16 +556,27 @@ func checkNQValue(c nqValueCase) *vk.Failure {
 		}
 		safe := iriSafe(c.Text)
 		vk.Class(fmt.Sprintf("term iri valid=%v accepted=%v", safe, err == nil))
-		if !safe {
-			return nil // "the provided IRI ... must be valid": nothing is promised
+		if !utf8.ValidString(c.Text) {
+			return nil
 		}
-		vk.NonTrivial("nq-term", c.Kind, c.Text)
 		if err != nil {
+			if !safe {
+				return nil // "the provided IRI ... must be valid": rejected
+			}
 			return vk.Failf("new-iri-rejected", "NewIRITerm(%q): %v", c.Text, err)
 		}
+		// accepted, valid or not: the result must be a term (Parts gives the text
+		// back, a statement using it parses), with the characters an IRIREF cannot
+		// hold written as UCHAR escapes
+		vk.NonTrivial("nq-term", c.Kind, c.Text)
+		forbidden := iriForbidden(c.Text)
 		text, qual, kind, err := term.Parts()
 		if err != nil || text != c.Text || qual != "" || kind != rdf.IRI {
-			return vk.Failf("new-iri-parts", "NewIRITerm(%q) = %q, Parts() = (%q, %q, %v, %v)", c.Text, term.Value, text, qual, kind, err)
+			key := "new-iri-parts"
+			if forbidden {
+				key = "new-iri-forbidden-char-not-escaped"
+			}
+			return vk.Failf(key, "NewIRITerm(%q) = %q, Parts() = (%q, %q, %v, %v)", c.Text, term.Value, text, qual, kind, err)
 		}
 		st, err := rdf.ParseNQuad(term.Value + " " + term.Value + " " + term.Value + " " + term.Value + " .")
 		if err != nil || st.Subject.Value != term.Value || st.Predicate.Value != term.Value || st.Label.Value != term.Value {
@@ -554,21 +589,14 @@ func checkNQValue(c nqValueCase) *vk.Failure {
 		return nil
 	}
 	// literals
-	qualOK := true
+	qualOK, dtInvalid := true, false
 	switch {
 	case c.Qual == "":
 	case strings.HasPrefix(c.Qual, "@"):
 		qualOK = refLangOK(c.Qual)
 	default:
 		qualOK = iriSafe(c.Qual)
-		if !qualOK {
-			vk.Class("term literal excluded: datatype not a valid IRI")
-			var r vk.Result
-			if r = vk.Call(func() { rdf.NewLiteralTerm(c.Text, c.Qual) }); r.Outcome != vk.Returned {
-				return vk.Failf("new-literal-panics", "NewLiteralTerm(%q, %q): %v %s", c.Text, c.Qual, r.Outcome, r.Text)
-			}
-			return nil
-		}
+		dtInvalid = !qualOK
 	}
 	vk.Class(fmt.Sprintf("term literal qual-valid=%v", qualOK))
 	vk.NonTrivial("nq-term", c.Kind, c.Text, c.Qual)
@@ -577,15 +605,26 @@ func checkNQValue(c nqValueCase) *vk.Failure {
 	if r := vk.Call(func() { term, err = rdf.NewLiteralTerm(c.Text, c.Qual) }); r.Outcome != vk.Returned {
 		return vk.Failf("new-literal-panics", "NewLiteralTerm(%q, %q): %v %s", c.Text, c.Qual, r.Outcome, r.Text)
 	}
-	if (err == nil) != qualOK {
+	if dtInvalid {
+		// a datatype that is not a valid IRI may be rejected; when it is accepted
+		// the result must be a term all the same
+		if err != nil || !utf8.ValidString(c.Qual) {
+			return nil
+		}
+		vk.Class("term literal with an invalid datatype IRI accepted")
+	} else if (err == nil) != qualOK {
 		return vk.Failf("new-literal-validity", "NewLiteralTerm(%q, %q) err=%v but the qualifier is valid=%v", c.Text, c.Qual, err, qualOK)
 	}
-	if !qualOK {
+	if !qualOK && !dtInvalid {
 		return nil
 	}
 	text, qual, kind, err := term.Parts()
 	if err != nil || text != c.Text || qual != c.Qual || kind != rdf.Literal {
-		return vk.Failf("new-literal-parts", "NewLiteralTerm(%q, %q) = %q, Parts() = (%q, %q, %v, %v)", c.Text, c.Qual, term.Value, text, qual, kind, err)
+		key := "new-literal-parts"
+		if dtInvalid && iriForbidden(c.Qual) {
+			key = "new-literal-forbidden-char-not-escaped"
+		}
+		return vk.Failf(key, "NewLiteralTerm(%q, %q) = %q, Parts() = (%q, %q, %v, %v)", c.Text, c.Qual, term.Value, text, qual, kind, err)
 	}
 	st, err := rdf.ParseNQuad(wrap(term.Value))
 	if err != nil || st.Object.Value != term.Value {
@@ -632,7 +671,10 @@ func drawNQValue(t *rapid.T) nqValueCase {
 			}
 		}
 		if rapid.IntRange(0, 7).Draw(t, "iri_bad") == 0 {
-			b.WriteString(rapid.SampledFrom([]string{" ", "<", ">", "\"", "\\", "{", "\x01", "%zz"}).Draw(t, "iri_badch"))
+			b.WriteString(rapid.SampledFrom([]string{" ", "<", ">", "\"", "\\", "{", "}", "|", "^", "`", "\x01", "%zz", "\\u0041"}).Draw(t, "iri_badch"))
+			if rapid.Bool().Draw(t, "iri_bad_tail") {
+				b.WriteString(rapid.SampledFrom(iriASCII).Draw(t, "iri_tail"))
+			}
 		}
 		return nqValueCase{Kind: 1, Text: b.String()}
 	case 2: // language tags, valid and invalid
@@ -654,6 +696,9 @@ func drawNQValue1IRI(t *rapid.T) string {
 		} else {
 			s += rapid.SampledFrom(iriASCII).Draw(t, "dt_ascii")
 		}
+	}
+	if rapid.IntRange(0, 7).Draw(t, "dt_bad") == 0 {
+		s += rapid.SampledFrom([]string{" ", "<", ">", "\"", "\\", "{", "}", "|", "^", "`", "\x01"}).Draw(t, "dt_badch") + rapid.SampledFrom([]string{"", "b", "/c"}).Draw(t, "dt_tail")
 	}
 	return s
 }
